@@ -329,3 +329,40 @@ Proof.
     rewrite H, H0. reflexivity.
   - destruct sg; discriminate.
 Qed.
+
+(* ------------------------------------------------------------------ *)
+(* the entries of a map in printed order: sorted by CmpTotal on the keys, ties
+   broken by the key texts.  Every decoration of the entries that carries the
+   key and the key text is sorted the same way. *)
+Definition sorted_entries (rk : N -> Z) (ktext : value -> bytes) (m : list (value * value))
+  : list (value * value) :=
+  map (fun x => snd (snd x))
+      (isort (@key_lt rk (value * value)) (map (fun e => (fst e, (ktext (fst e), e))) m)).
+
+Lemma isort_dec {X} (rk : N -> Z) (ktext : value -> bytes) (g : value * value -> X) m :
+  isort (@key_lt rk X) (map (fun e => (fst e, (ktext (fst e), g e))) m)
+  = map (fun e => (fst e, (ktext (fst e), g e))) (sorted_entries rk ktext m).
+Proof.
+  set (base := fun e : value * value => (fst e, (ktext (fst e), e))).
+  set (f := fun x : value * (bytes * (value * value)) => (fst x, (fst (snd x), g (snd (snd x))))).
+  assert (E : map (fun e => (fst e, (ktext (fst e), g e))) m = map f (map base m))
+    by (rewrite map_map; reflexivity).
+  rewrite E. rewrite (isort_map (@key_lt rk (value * value)) (@key_lt rk X) f (fun a b => eq_refl)).
+  unfold sorted_entries. fold base. rewrite map_map. apply map_ext_in.
+  intros x Hx. apply isort_in in Hx. apply in_map_iff in Hx as (e & <- & _). reflexivity.
+Qed.
+
+Lemma sorted_entries_perm rk ktext m : Permutation m (sorted_entries rk ktext m).
+Proof.
+  unfold sorted_entries.
+  set (base := fun e : value * value => (fst e, (ktext (fst e), e))).
+  assert (E : m = map (fun x : value * (bytes * (value * value)) => snd (snd x)) (map base m)).
+  { rewrite map_map. cbn [base snd]. symmetry. apply map_id. }
+  rewrite E at 1. apply Permutation_map. apply isort_perm.
+Qed.
+
+Lemma sorted_entries_in rk ktext m e : In e (sorted_entries rk ktext m) -> In e m.
+Proof. intros H. eapply Permutation_in; [apply Permutation_sym, sorted_entries_perm|exact H]. Qed.
+
+Lemma sorted_entries_length rk ktext m : length (sorted_entries rk ktext m) = length m.
+Proof. symmetry. apply Permutation_length, sorted_entries_perm. Qed.
